@@ -53,7 +53,15 @@ class Ctr:
 
 
 def mk_expr(rng, v, ctr, p_unm=0.12, p_hand=0.3, p_star=0.04, top=False):
-    """value -> expression tree (python dict form) whose evaluation gives v"""
+    """value -> expression tree (python dict form) whose evaluation gives v;
+    any node may be written inside redundant parentheses (`(1)`, `([1, 2])`): invisible to the model (same ast)"""
+    e = mk_expr0(rng, v, ctr, p_unm, p_hand, p_star, top)
+    if rng.random() < 0.07:
+        e["paren"] = rng.choice([1, 1, 2])
+    return e
+
+
+def mk_expr0(rng, v, ctr, p_unm, p_hand, p_star, top):
     r = rng.random()
     if not top and r < p_unm:
         k = ctr.next()
@@ -160,6 +168,11 @@ def lit(v):
 
 
 def render(e):
+    n = e.get("paren", 0)
+    return "(" * n + render0(e) + ")" * n
+
+
+def render0(e):
     t = e["t"]
     if t == "leaf":
         v = e["v"]
@@ -286,9 +299,9 @@ def ast_to_norm(node, src, texts):
 def collect_texts(e, out):
     t = e["t"]
     if t == "leaf" and not e["canon"]:
-        out[render(e).replace(" ", "")] = ("raw", e["tok"])
+        out[render0(e).replace(" ", "")] = ("raw", e["tok"])
     elif t == "unm":
-        out[render(e).replace(" ", "")] = ("unm", e["tok"])
+        out[render0(e).replace(" ", "")] = ("unm", e["tok"])
     elif t in ("L", "T"):
         for x in e["es"]:
             collect_texts(x, out)
@@ -433,7 +446,7 @@ def oracle(case, obs):
             same_val = expr_value(e) == new and type(expr_value(e)) is type(new)
         except Exception:  # noqa: BLE001
             same_val = False
-        if same_val and first.get("arg") is not None and first["arg"].replace(" ", "") != render(e).replace(" ", ""):
+        if same_val and first.get("arg") is not None and first["arg"].replace(" ", "") != render0(e).replace(" ", ""):   # the argument text is the node's segment (no outer parentheses)
             fails.append(("C11", "equal_kept", f"value unchanged but argument rewritten: {render(e)} -> {first['arg']}"))
     # C08: second identical run changes nothing and reports nothing to create / fix / trim
     if case["mode"] == "twice":
